@@ -1,4 +1,5 @@
 """C37 — acknowledged writes are not lost: the one structural clause (R-LOSSY / R-ORDER on the replication result; cfg raft)."""
+import re
 from vpr.facts import root_fn
 
 EXPLANATION = (
@@ -8,8 +9,9 @@ EXPLANATION = (
     "both from the Err arm and from the Ok arm (i.e. the error path returns / builds its own error reply and never falls "
     "through to the success reply). A dropped or merely logged replication error lets the handler acknowledge a write that "
     "is not in the replicated log. Agreement under faults is openraft's algorithm plus the network and is not decided."
+    " Log-store contract (both stores, cfg raft / persistent): delete_conflict_logs_since removes from log_id.index inclusive (no arithmetic on the bound) and append_to_log overwrites the entry at its index (no vacant-only insert)."
 )
-DECIDED = ["a failed replication never falls through to the success reply of the handler that issued it"]
+DECIDED = ["a failed replication never falls through to the success reply of the handler that issued it", "conflicting log entries are truncated inclusively and appends overwrite"]
 NOT_DECIDED = ["consensus safety (openraft)", "message loss / partitions / restarts", "local state changes made before a replication that then fails (reported under C38)"]
 
 WRITE = ("::client_write",)
@@ -38,7 +40,61 @@ def result_switches(b, after_bb, ty_pred):
     return out
 
 
+def run_log_store(ctx):
+    """the log store's side of 'acknowledged writes are not lost' (openraft's RaftStorage contract, read off the two stores):
+    delete_conflict_logs_since(log_id) removes every entry from log_id.index INCLUSIVE, and append_to_log OVERWRITES the entry at
+    its index. If the first conflicting entry survives truncation, or an append keeps the stored copy, a rejoining ex-leader
+    keeps its own uncommitted command at that index and applies it in place of the committed one."""
+    from vpr import hirq as H
+    for cfg, store in (("raft", "store::MemStore"), ("persistent", "persistent_store::RocksStore")):
+        F = ctx.facts(cfg)
+        base = "<varpulis_cluster::raft::%s as openraft::storage::RaftStorage<varpulis_cluster::raft::TypeConfig>>::" % store
+        name = store.rsplit("::", 1)[1]
+        # --- truncation bound
+        hs = [F.hir(p) for p in F.find_fns("^" + re.escape(base) + r"delete_conflict_logs_since(::\{closure#0\})?$", "hir")]
+        hs = [h for h in hs if h]
+        if not hs:
+            ctx.anchor_lost("log-store", "%s::delete_conflict_logs_since not found (cfg %s)" % (name, cfg))
+            continue
+        uses = 0
+        shifted = None
+        for h in hs:
+            for x in H.walk(h["body"]):
+                if x.get("k") == "field" and x["name"] == "index" and "LogId" in x.get("adt", ""):
+                    uses += 1
+                if x.get("k") == "bin" and x["op"] in ("Add", "Sub") and any(y.get("k") == "field" and y["name"] == "index" and "LogId" in y.get("adt", "") for y in H.walk(x)):
+                    shifted = x
+        key = "%s:truncate-inclusive" % name
+        if uses == 0:
+            ctx.anchor_lost("log-store", "%s::delete_conflict_logs_since does not use log_id.index" % name)
+        elif shifted is not None:
+            ctx.violation("log-store", key, "%s::delete_conflict_logs_since starts the deletion at `%s`, not at log_id.index: the first conflicting entry stays in the log" % (name, H.show(shifted)), site=shifted["sp"])
+        else:
+            ctx.ok("log-store", key, "deletes from log_id.index inclusive")
+        # --- append overwrites
+        ah = [F.hir(p) for p in F.find_fns("^" + re.escape(base) + r"append_to_log(::\{closure#0\})?$", "hir")]
+        ah = [h for h in ah if h]
+        if not ah:
+            ctx.anchor_lost("log-store", "%s::append_to_log not found (cfg %s)" % (name, cfg))
+            continue
+        meths = [x["method"] for h in ah for x in H.walk(h["body"]) if x.get("k") == "mcall"]
+        keep = [m for m in meths if m in ("entry", "or_insert", "or_insert_with", "try_insert", "contains_key")]
+        writes = [m for m in meths if m in ("insert", "put", "put_cf")]
+        key = "%s:append-overwrites" % name
+        if keep:
+            ctx.violation("log-store", key, "%s::append_to_log writes an entry only if its index is vacant (%s): after a truncation that left a stale entry — or on any re-append of an index — the leader's entry is dropped and the stored one is applied" % (name, "/".join(sorted(set(keep)))), site=ah[0]["sp"] if "sp" in ah[0] else None)
+        elif writes:
+            ctx.ok("log-store", key, "unconditional %s" % writes[0])
+        else:
+            ctx.anchor_lost("log-store", "%s::append_to_log: no map / batch write recognised (%s)" % (name, sorted(set(meths))[:8]))
+
+
 def run(ctx):
+    ctx.guard("log-store", lambda: run_log_store(ctx))
+    run_replication(ctx)
+
+
+def run_replication(ctx):
     F = ctx.facts("raft")
     n = 0
     counts = {}
